@@ -28,6 +28,8 @@ def campaign(c):
         netscen.run_scenario(c, r, 'ip', [kinds[i % len(kinds)]] if i < 5 * len(kinds) else None, project)
     for i in range(3 if c.quick else 15):
         netscen.run_scenario(c, c.rng.fork('sweep%d' % i), 'ip', [['icmp-sweep', 'udp-sweep', 'tcp-sweep'][i % 3]], project)
+    for i in range(2 if c.quick else 12):
+        netscen.run_scenario(c, c.rng.fork('optgrid%d' % i), 'ip', ['opt-grid'], project)
     # crafted: IPv4 header sums whose first fold overflows 16 bits (identification tuned so that the low half is 0xffff)
     from .. import progdiff, core
     for i in range(12 if c.quick else 300):
